@@ -31,7 +31,9 @@ def demo_cmd(seed, wt):
             dst = os.path.join(wt, d, "zz_seed_" + os.path.basename(t))
             shutil.copy(t, dst)
             names = re.findall(r"^func (Test\w+|Example\w+)\(", src, re.M)
-            cmds.append("go test -vet=off -count=1 -run '^(%s)$' ./%s" % ("|".join(names), d))
+            meta = os.path.join(seed, "meta.md")
+            race = "-race " if os.path.exists(meta) and "go test -race" in open(meta).read() else ""
+            cmds.append("go test %s-vet=off -count=1 -run '^(%s)$' ./%s" % (race, "|".join(names), d))
         return " && ".join(cmds)
     mains = glob.glob(os.path.join(seed, "demo", "*.go")) + glob.glob(os.path.join(seed, "*.go"))
     if mains:
@@ -77,10 +79,19 @@ def main():
         run("git -C /repo worktree remove --force %s" % wt, "/")
     if not ids:
         return 0
-    rc, out = run("git -C /repo status --porcelain", "/")
-    if out.strip():
-        print("/repo is dirty, refusing"); return 4
-    run("git -C /repo apply %s" % patch, "/")
+    if os.environ.get("SEED_IN_WORKTREE"):
+        # run the checks against a scratch worktree of /repo with the patch
+        # applied (same effect as applying to /repo; usable while other runs use /repo)
+        swt = tempfile.mkdtemp(prefix="seedwt-", dir="/tmp"); os.rmdir(swt)
+        run("git -C /repo worktree add --detach %s HEAD -q" % swt, "/")
+        run("git apply %s" % patch, swt)
+        ENV["VERIF_STICK_DIR"] = swt
+    else:
+        swt = None
+        rc, out = run("git -C /repo status --porcelain", "/")
+        if out.strip():
+            print("/repo is dirty, refusing"); return 4
+        run("git -C /repo apply %s" % patch, "/")
     try:
         for i in ids:
             try:
@@ -91,10 +102,14 @@ def main():
             print("check %s: exit=%d %s" % (i, rc, "; ".join(v)[:400]))
             results.setdefault("checks", {})[i] = {"exit": rc, "signatures": [l.split("signature=")[1] for l in v if "signature=" in l][:5]}
     finally:
-        run("git -C /repo checkout -- .", "/")
-        rc, out = run("git -C /repo status --porcelain", "/")
-        if out.strip():
-            print("WARNING /repo not clean:", out)
+        if swt:
+            run("git -C /repo worktree remove --force %s" % swt, "/")
+            ENV.pop("VERIF_STICK_DIR", None)
+        else:
+            run("git -C /repo checkout -- .", "/")
+            rc, out = run("git -C /repo status --porcelain", "/")
+            if out.strip():
+                print("WARNING /repo not clean:", out)
     if keep and results.get("validation", {}).get("suite_with_patch") == "pass" and results["validation"]["demo_with_patch"] == "fails" and results["validation"]["demo_without_patch"] == "passes":
         import json
         dst = os.path.join("/verif/seeded", keep)
